@@ -4,8 +4,24 @@ BFS over histories of successful assignments/links; in every reached state every
 whose current value is invalid, constant / read-only violation; instance, class, subclass and single-key update routes) is made on
 a fresh replay and judged by (i) it raises, (ii) no watcher ran, (iii) snapshot of values/links/watcher tables unchanged, (iv) twin
 world: history + attempt + probe observes exactly what history + probe observes."""
+import os
+
+from mc import pin
 from mc.engine import Harness, Result, V
 from mc.world import reset_globals
+
+
+class Counter:
+    """a stateful value generator for a Dynamic (Number) parameter"""
+    def __init__(self):
+        self.n = 0
+
+    def __call__(self):
+        self.n += 1
+        return self.n
+
+    def __repr__(self):
+        return 'Counter(%d)' % self.n
 
 ATTEMPTS = [
     ['inst', 'n', 'plain', 99], ['inst', 'n', 'plain', 'str'], ['inst', 'n', 'plain', float('nan')], ['update', 'n', 'plain', 99],
@@ -15,6 +31,8 @@ ATTEMPTS = [
     ['cls', 'TA', 'r', 'plain', 1], ['inst', 'r', 'ref', 'S1.v'], ['inst', 's', 'plain', 5], ['inst', 'name', 'plain', 'newname'],
     ['inst', 'go', 'plain', 'yes'], ['update', 'go', 'plain', 'yes'], ['inst', 'armed', 'plain', 'yes'], ['cls', 'TB', 'armed', 'plain', None],
     ['update', 'armed', 'plain', 1],
+    ['inst', 'fn', 'plain', 'nope.txt'], ['cls', 'TB', 'fn', 'plain', 'nope.txt'], ['update', 'fn', 'plain', 'nope.txt'], ['clsupdate', 'TB', 'fn', 'plain', 'nope.txt'],
+    ['inst', 'cnum', 'gen', None], ['inst', 'rnum', 'gen', None], ['cls', 'TB', 'rnum', 'gen', None],
     # only a rejection while the parameter has been made constant on the instance (skipped otherwise)
     ['inst', 'k', 'plain', 'zz', 'if-constified'], ['update', 'k', 'plain', 'zz', 'if-constified'],
 ]
@@ -41,6 +59,10 @@ class World:
             k = param.Parameter(default='k0')
             go = param.Event()
             armed = param.Event(default=True)
+            fn = param.Filename(default='engine.py', search_paths=[os.path.join(pin.VERIF, 'mc')])
+            dyn = param.Number(default=1)
+            cnum = param.Number(default=0, constant=True)
+            rnum = param.Number(default=0, readonly=True)
 
         class TB(TA):
             pass
@@ -52,6 +74,7 @@ class World:
         self.t2 = TA()
         self.stack = []
         self.constified = False
+        self.gen = Counter()
         # per-instance Parameter copies are created up-front in every world: creating one is a side effect of any
         # instance-level access and not among the things the property lists
         for o in (self.t, self.t2, self.S1):
@@ -103,6 +126,9 @@ class World:
             t.param.update(**{n: v for n, v in op[1]})
         elif k == 'cset':
             setattr(getattr(self, op[1]), op[2], op[3])
+        elif k == 'setgen':
+            t.dyn = self.gen             # dyn now produces its values by calling the generator
+            t.dyn                       # (one value has been produced)
         elif k == 'constify':
             t.param[op[1]].constant = True
             self.constified = True
@@ -110,6 +136,8 @@ class World:
             cm = {'batch': self.param.parameterized.batch_call_watchers, 'discard': self.param.parameterized.discard_events}[op[1]](t)
             cm.__enter__()
             self.stack.append(cm)
+        elif k == 'readdyn':
+            self.log.append(('dyn-read', repr(t.dyn)))
         elif k == 'closeall':
             while self.stack:
                 self.stack.pop().__exit__(None, None, None)
@@ -123,31 +151,35 @@ class World:
         a = a[:4] if a[-1] == 'if-constified' else a
         if route in ('inst', 'update'):
             _, pname, kind, val = a
-            v = self.ref(val) if kind == 'ref' else val
+            v = self.ref(val) if kind == 'ref' else (self.gen if kind == 'gen' else val)
             if route == 'inst':
                 return lambda: setattr(self.t, pname, v)
             return lambda: self.t.param.update(**{pname: v})
         _, cname, pname, kind, val = a
         cls = getattr(self, cname)
+        if kind == 'gen':
+            val = self.gen
         if route == 'cls':
             return lambda: setattr(cls, pname, val)
         return lambda: cls.param.update(**{pname: val})
 
     def snapshot(self):
-        snap = {}
+        snap = {'gen': (self.gen.n, getattr(self.gen, '_Dynamic_last', '-'), getattr(self.gen, '_Dynamic_time', '-'))}
         for label, o in (('t', self.t), ('S1', self.S1), ('t2', self.t2)):
-            snap[label + '.values'] = {p: id(getattr(o, p)) for p in o.param}
+            snap[label + '.values'] = {p: (repr(getattr(o, p)) if p == 'fn' else id(getattr(o, p))) for p in o.param if p != 'dyn'}
+            if 'dyn' in o.param:
+                snap[label + '.dyn'] = (repr(o.param.inspect_value('dyn')), id(o.param.get_value_generator('dyn')))
             snap[label + '.stored'] = {p: id(v) for p, v in o._param__private.values.items()}
             snap[label + '.refs'] = {k: id(v) for k, v in o._param__private.refs.items()}
             snap[label + '.async'] = sorted(o._param__private.async_refs)
             snap[label + '.watchers'] = {p: {w: [id(x) for x in ws] for w, ws in d.items()} for p, d in o._param__private.watchers.items()}
             snap[label + '.ref_watchers'] = [id(w) for _, w in o._param__private.ref_watchers]
         for label, c in (('TA', self.TA), ('TB', self.TB), ('Src', self.Src)):
-            snap[label + '.defaults'] = {p: id(getattr(c, p)) for p in c.param}
+            snap[label + '.defaults'] = {p: (repr(getattr(c, p)) if p == 'fn' else id(getattr(c, p))) for p in c.param if p != 'dyn'}
         return snap
 
     PROBE = [['closeall'], ['src', 'v', 6], ['src', 'w', 7], ['root', 8], ['cset', 'TA', 'n', 8], ['cset', 'TA', 'm', 'cm'], ['set', 'n', 1], ['set', 'm', 'y'],
-             ['src', 'v', 3], ['cset', 'TB', 's', 'sb'], ['cset', 'TA', 's', 'sa'], ['cset', 'TA', 'k', 'k1'], ['set', 'go', True]]
+             ['src', 'v', 3], ['cset', 'TB', 's', 'sb'], ['cset', 'TA', 's', 'sa'], ['cset', 'TA', 'k', 'k1'], ['set', 'go', True], ['cset', 'TA', 'fn', 'pin.py'], ['readdyn']]
 
     def probe(self):
         out = []
@@ -158,7 +190,9 @@ class World:
                 self.do(op)
             except Exception as e:
                 exc = type(e).__name__
-            obs = {'t': {p: repr(getattr(self.t, p)) for p in ('n', 'm', 'c', 'r', 's', 'k', 'go', 'armed')},
+            obs = {'t': {p: repr(getattr(self.t, p)) for p in ('n', 'm', 'c', 'r', 's', 'k', 'go', 'armed', 'fn', 'cnum', 'rnum')},
+                   'dyn': repr(self.t.param.inspect_value('dyn')),
+                   'TBfn': (repr(self.TB.fn), repr(self.TA.fn)),
                    't2': {p: repr(getattr(self.t2, p)) for p in ('n', 'm', 's')},
                    'TA': {p: repr(getattr(self.TA, p)) for p in ('n', 'm', 's', 'r')}, 'TB': {p: repr(getattr(self.TB, p)) for p in ('n', 'm', 's', 'r')},
                    'S1': {p: repr(getattr(self.S1, p)) for p in ('v', 'w')}}
@@ -187,7 +221,7 @@ class C02(Harness):
 
     OPS = [['set', 'n', 3], ['set', 'm', 'x'], ['src', 'v', 5], ['link', 'n', 'S1.v'], ['link', 'm', 'S1.w'], ['link', 'n', 'bind(v)'],
            ['link', 'm', 'rx(v)'], ['link', 'm', 'R'], ['update', [['n', 2], ['m', 9]]], ['root', 4], ['cset', 'TA', 'n', 6], ['cset', 'TB', 'm', 'cb'],
-           ['constify', 'k'], ['open', 'batch'], ['open', 'discard']]
+           ['constify', 'k'], ['open', 'batch'], ['open', 'discard'], ['setgen']]
 
     def execute(self, cfg, history):
         def build():
@@ -222,7 +256,7 @@ class C02(Harness):
             if exc is None:
                 vs.append(V('attempt-accepted', '%s: did not raise' % ctx, **key))
                 continue
-            if not isinstance(exc, (ValueError, TypeError)):
+            if not isinstance(exc, (ValueError, TypeError) + ((OSError,) if 'fn' in a else ())):
                 vs.append(V('wrong-exception', '%s: raised %r' % (ctx, exc), **key))
             if w.log:
                 vs.append(V('watcher-ran', '%s: watchers ran during the rejected attempt: %r' % (ctx, w.log[:3]), **key))
